@@ -1,6 +1,7 @@
 import AC.Build
 import AC.Naming
 import AC.Chain
+import AC.Gen.BuildConsts
 /-! # Executable models of `acc.Decompile` and `acc.Build` (C04, C16)
 
 `decompileX` mirrors acc/decompile.go, `buildX` mirrors acc/build.go together with the three passes it
@@ -33,8 +34,8 @@ deriving Repr, DecidableEq
 abbrev IR := List Inst
 abbrev Script := List Stmt
 
-/-- `complexitylimit` of acc/build.go -/
-def complexityLimit : Nat := 5
+/-- `complexitylimit` of acc/build.go (re-extracted from the source on every check) -/
+def complexityLimit : Nat := AC.Gen.complexityLimit
 
 /-! ## Decompile -/
 
@@ -54,11 +55,11 @@ def danglingOK (ir : IR) : Bool := danglingFrom [0] ir
 /-! ## Naming passes -/
 
 /-- the identifier the two naming passes leave on the canonical operand of index `i` (`[]` = none):
-    `_%b` when `BitLen ≤ 8`, else `x%d` when the value is `2^BitLen - 1`, else nothing -/
+    `_%b` when `BitLen ≤ 8` (`AC.Gen.byteBits`, re-extracted), else `x%d` when the value is `2^BitLen - 1`, else nothing -/
 def identOf (chain : List Int) (i : Nat) : List Char :=
   if i < chain.length then
     let x := (at' chain i).toNat
-    if bitLen x ≤ 8 then '_' :: Nat.toDigits 2 x
+    if bitLen x ≤ AC.Gen.byteBits then '_' :: Nat.toDigits 2 x
     else if x = 2 ^ bitLen x - 1 then 'x' :: Nat.toDigits 10 (bitLen x)
     else []
   else []
